@@ -446,14 +446,20 @@ def msgtext_in_model(text):
         except ValueError:
             pass
         u = tok.upper()
-        if u in ("CH", "HS", "INTERNET", "CHAOS", "HESIOD", "RESERVED0") or _re.fullmatch(r"CLASS\d+", u):
-            return False
         if _re.fullmatch(r"[A-Z][A-Z0-9_-]*", u) and not _re.fullmatch(r"TYPE\d+", u) and not _mt_type_ok(u):
             return False              # a type the library implements and RdTextM has no schema for
     if "\\#" in t:
+        # generic syntax: only for types that are generic for the library too (for a known type
+        # dns.rdata.from_text goes through the wire codec, which this instance does not have)
         for ln in t.split("\n"):
-            if "\\#" in ln and not _re.search(r"TYPE\d+\s+\\#", ln, _re.I):
-                return False
+            if "\\#" in ln:
+                mm = _re.search(r"TYPE(\d+)\s+\\#", ln, _re.I)
+                if not mm:
+                    return False
+                n = int(mm.group(1))
+                if n <= 65535 and (dns.rdata.get_rdata_class(dns.rdataclass.IN, n).__name__ != "GenericRdata"
+                                   or dns.rdata.get_rdata_class(dns.rdataclass.CH, n).__name__ != "GenericRdata"):
+                    return False
     return True
 
 
@@ -711,6 +717,9 @@ MT_RR = ["www.example. 300 IN A 10.0.0.1", "www.example. IN A 10.0.0.2", "www.ex
          "l" * 64 + " 1 IN A 1.2.3.4", "x 1 IN MX 65536 y", "x 1 IN TXT \"unterminated"]
 MT_Q = ["www.example. IN A", "www.example. A", "example. IN SOA", "example. ANY ANY", " IN MX", "www.example. IN", "www.example. IN BOGUS", "www.example. IN TYPE1 x",
         "www.example. NONE A", "example. IN SOA extra"]
+MT_CLS = ["c 5 CH A ns.example. 12", "c 5 CH A ns.example. 8", "c 5 CHAOS A x 0777", "c 5 CH A 10.0.0.1", "c 5 HS A 10.0.0.1", "c 5 HS TXT \"x\"", "c 5 CH TXT \"x\" y",
+          "c 5 CLASS3 A n 1", "c 5 CLASS1 A 10.0.0.1", "c 5 CLASS65535 TXT q", "c 5 CLASS65536 TXT q", "c 5 INTERNET A 10.0.0.1", "c 5 HESIOD MX 1 m", "c 5 RESERVED0 A 1.2.3.4",
+          "c 5 CH SRV 1 2 3 t", "c 5 CH AAAA ::1", "c 5 CH NS n", "c CH A \\# 3 006161", "c 9 CH TYPE1 \\# 3 000001", "c CLASS3 TYPE1 \\# 0"]
 MT_UPD = ["foo ANY A", "foo ANY ANY", "foo NONE A 10.0.0.9", "foo NONE A", "foo 300 IN A 10.0.0.1", "foo ANY A 10.0.0.1", "bar 0 ANY MX", "bar 0 NONE MX 10 x", "foo 300 A 10.0.0.5"]
 
 
@@ -737,13 +746,13 @@ def gen_msgtext(rng):
                 elif upd and sn != "ADDITIONAL":
                     lines.append(rng.choice(["foo ANY A", "foo ANY ANY", "foo NONE A 10.0.0.9", "foo 300 IN A 10.0.0.1", "bar 0 NONE MX 10 x"] if sn == "UPDATE" else ["foo ANY A", "foo ANY ANY", "foo NONE A", "foo 0 IN A 10.0.0.1"]))
                 else:
-                    lines.append(rng.choice(MT_RR[:6] + MT_RR[7:10] + MT_RR[11:14]))
+                    lines.append(rng.choice(MT_RR[:6] + MT_RR[7:10] + MT_RR[11:14] + MT_CLS[:3]))
             elif sn in ("QUESTION", "ZONE"):
                 lines.append(rng.choice(MT_Q))
             elif upd and sn != "ADDITIONAL":
                 lines.append(rng.choice(MT_UPD + MT_RR[:6]))
             else:
-                lines.append(rng.choice(MT_RR))
+                lines.append(rng.choice(MT_RR + MT_CLS))
     if rng.random() < 0.15:
         lines.insert(rng.randrange(len(lines) + 1), rng.choice(["", ";HEADER", "; just a comment", "id 7"]))
     t = "\n".join(lines) + rng.choice(["\n", "", "\n\n"])
@@ -761,6 +770,9 @@ def msgtext_cases(ctx):
         t = gen_msgtext(rng)
         o = rng.choice([None, None, [b"example", b""], [b""]])
         yield "msg_text_model", [63, 1, enc(t), rng.randrange(2), o, rng.randrange(2)]
+    for ln in MT_CLS:
+        for sec in ("ANSWER", "QUESTION"):
+            yield "msg_text_model", [63, 1, enc("id 1\n;" + sec + "\n" + ln + "\n"), 0, None, 0]
     # one record of every type that has a text schema, from the specimen of the type: as it is, and
     # (a sample) with one token replaced by a boundary token
     specs = [(t, text) for (c, t, text, _w) in P.load_seeds().rdatas if c == 1 and text and int(t) in schema_types()]
